@@ -28,7 +28,7 @@ use rustc_middle::mir::{
     StatementKind, TerminatorKind,
 };
 use rustc_middle::util::Providers;
-use rustc_middle::ty::print::{with_no_trimmed_paths, with_no_visible_paths};
+use rustc_middle::ty::print::{with_no_trimmed_paths, with_no_visible_paths, PrintTraitRefExt};
 use rustc_middle::ty::{self, Instance, Ty, TyCtxt, TypingEnv};
 use rustc_span::Span;
 
@@ -157,9 +157,37 @@ fn crate_name(tcx: TyCtxt<'_>, did: DefId) -> String {
     tcx.crate_name(did.krate).to_string()
 }
 
-/// crate-qualified, generics-free path of an item.
+/// crate-qualified path of an item.  Items of trait impls are always printed as
+/// `<Self as Trait>::name` (def_path_str degrades to `module::name` when both the trait and
+/// the self type are foreign, which makes distinct impls collide).
 fn path_of(tcx: TyCtxt<'_>, did: DefId) -> String {
-    let p = with_no_visible_paths!(with_no_trimmed_paths!(tcx.def_path_str(did)));
+    let raw = with_no_visible_paths!(with_no_trimmed_paths!(tcx.def_path_str(did)));
+    let mut p = raw.clone();
+    if let Some(parent) = tcx.opt_parent(did) {
+        match tcx.def_kind(parent) {
+            DefKind::Impl { of_trait: true } if matches!(tcx.def_kind(did), DefKind::AssocFn) => {
+                let st = tcx.type_of(parent).instantiate_identity().skip_norm_wip();
+                let tr = tcx.impl_trait_ref(parent).instantiate_identity().skip_norm_wip();
+                let name = tcx.item_name(did);
+                p = with_no_visible_paths!(with_no_trimmed_paths!(format!("<{} as {}>::{}", st, tr.print_only_trait_path(), name)));
+            }
+            _ => {
+                if matches!(tcx.def_kind(did), DefKind::Closure | DefKind::InlineConst | DefKind::AnonConst | DefKind::SyntheticCoroutineBody) {
+                    // keep the `::{closure#n}` suffix, re-derive the prefix from the parent
+                    if let Some(pos) = raw.rfind("::{") {
+                        let suffix = &raw[pos..];
+                        let pp = path_of(tcx, parent);
+                        let pp = if parent.is_local() {
+                            pp.strip_prefix(&format!("{}::", crate_name(tcx, parent))).map(|x| x.to_string()).unwrap_or(pp)
+                        } else {
+                            pp
+                        };
+                        p = format!("{}{}", pp, suffix);
+                    }
+                }
+            }
+        }
+    }
     if did.is_local() {
         format!("{}::{}", crate_name(tcx, did), p)
     } else {
